@@ -386,6 +386,12 @@ inline bool rc_server_may_send(int type, uint8_t c) {
 // ---------------------------------------------------------------- strict decoder
 
 enum DStatus { D_OK, D_INCOMPLETE, D_MALFORMED };
+// strict = everything the specification lets a receiver reject; structural = only what makes the packet unparseable
+// (framing, lengths, property identifiers/types, header flags, inadmissible reason codes, trailing bytes): no UTF-8
+// content rules and no value-range (Protocol Error) rules.
+struct DecOpts { bool utf8 = true; bool ranges = true; };
+inline DecOpts& dec_opts() { static thread_local DecOpts o; return o; }
+struct StructuralScope { DecOpts saved; StructuralScope() : saved(dec_opts()) { dec_opts().utf8 = false; dec_opts().ranges = false; } ~StructuralScope() { dec_opts() = saved; } };
 struct DResult { DStatus st = D_MALFORMED; Packet pkt; size_t consumed = 0; std::string why; };
 
 struct Rd {
@@ -406,7 +412,7 @@ struct Rd {
         fail = true; return 0;
     }
     std::string bin() { uint16_t l = u16(); if (fail || left() < l) { fail = true; return {}; } std::string s((const char*)p + i, l); i += l; return s; }
-    std::string str() { std::string s = bin(); if (!fail && !wire_utf8_ok(s)) fail = true; return s; }
+    std::string str() { std::string s = bin(); if (!fail && dec_opts().utf8 && !wire_utf8_ok(s)) fail = true; return s; }
 };
 
 inline bool dec_props(Rd& r, int ptype, Props& out, std::string& why) {
@@ -421,7 +427,7 @@ inline bool dec_props(Rd& r, int ptype, Props& out, std::string& why) {
         if (!d) { why = "unknown property id"; return false; }
         if (!(d->allowed & bit(ptype))) { why = std::string("property not allowed here: ") + d->name; return false; }
         bool repeatable = (id == 0x26) || (id == 0x0B && ptype == PUBLISH);
-        if (!repeatable) { if (seen_lo & (1ull << id)) { why = std::string("duplicate property: ") + d->name; return false; } seen_lo |= 1ull << id; }
+        if (!repeatable && dec_opts().ranges) { if (seen_lo & (1ull << id)) { why = std::string("duplicate property: ") + d->name; return false; } seen_lo |= 1ull << id; }
         Prop p; p.id = id;
         switch (d->kind) {
             case K_BYTE: p.num = pr.u8(); break;
@@ -434,10 +440,12 @@ inline bool dec_props(Rd& r, int ptype, Props& out, std::string& why) {
         }
         if (pr.fail) { why = std::string("property value: ") + d->name; return false; }
         // value ranges the spec makes protocol errors
+        if (dec_opts().ranges) {
         if ((id == 0x01 || id == 0x17 || id == 0x19 || id == 0x25 || id == 0x28 || id == 0x29 || id == 0x2A) && p.num > 1) { why = "boolean property > 1"; return false; }
         if (id == 0x24 && p.num > 1) { why = "maximum qos > 1"; return false; }
         if ((id == 0x21 || id == 0x27 || id == 0x0B) && p.num == 0) { why = "zero not allowed"; return false; }
         if (id == 0x23 && p.num == 0) { why = "topic alias 0"; return false; }
+        }
         out.push_back(std::move(p));
     }
     r.i += len;
@@ -495,7 +503,7 @@ inline DResult decode(const unsigned char* data, size_t n) {
         p.session_present = f & 1;
         if (!dec_props(r, CONNACK, p.props, why)) return bad("props");
         if (!rc_listed(CONNACK, p.rc)) return bad("reason code");
-        if (p.rc != 0 && p.session_present) return bad("session present with error");
+        if (dec_opts().ranges && p.rc != 0 && p.session_present) return bad("session present with error");
         break;
     }
     case PUBLISH: {
